@@ -15,7 +15,7 @@
    window at the exit of a loop (the closest loop bracket before it closes a loop: for the outermost
    loop rank that is after the nest and before endCollect - where the compiler's loop footer is). *)
 From Coq Require Import String List.
-Require Import TV.Model.XRef TV.Proofs.XRefProofs.
+Require Import TV.Model.XRef TV.Proofs.XRefProofs TV.Model.TraceNames TV.Proofs.TraceNamesProofs.
 Import ListNotations.
 
 (* the decision procedure evaluated by the kernel on every emitted program is sound and complete *)
@@ -63,3 +63,37 @@ Proof. exact ok_consume_registered. Qed.
 Theorem C12_intersector_created_fed : forall p body x,
   sec_ok p body -> In (Query x) body -> created x body /\ fed x (window body).
 Proof. exact ok_query_created_fed. Qed.
+
+(* ---- the two derivations of trace names inside the compiler (Model/TraceNames.v) ----------------- *)
+
+(* Collector.__get_trace against Collector.set_collecting, for EVERY binding (lazy or eager; coord, payload
+   or elem; read or write): the consumed file is the file of the label registered for the binding, or - the
+   payload of a filterable lazy trace - the output of the filter step emitted with it, whose inputs are the
+   files of that label and of the loop's iter trace at the same rank *)
+Theorem C12_names_binding : forall c b rd,
+  (snd (get_trace c b rd) = [] /\ fst (get_trace c b rd) = fname (c_prefix c) (b_rank b) (label c b rd))
+  \/ (b_root b = None /\ is_payload b = true /\ filterable (label c b rd) = true
+      /\ snd (get_trace c b rd) = [Filter (fname (c_prefix c) (b_rank b) (label c b rd))
+                                          (fname (c_prefix c) (b_rank b) "iter")
+                                          (fst (get_trace c b rd))]).
+Proof. exact get_trace_name. Qed.
+
+(* for EVERY configuration in which each active buffer binding is on the format selected for the loop nest
+   (hypb): every file the dump hands to a traffic, filter or sequencer model is the file of a registered
+   (rank, type) or was written by an earlier filter step *)
+Theorem C12_names_consumed_registered : forall c,
+  hypb c = true ->
+  forall a e b q, dump_events c = a ++ e :: b -> In q (needs e) ->
+  exists f, q = NFile f /\ name_produced c a f.
+Proof. exact model_consumed_registered. Qed.
+
+Theorem C12_names_fed_registered : forall c,
+  hypb c = true -> forall r lab, In (Consume r lab) (feed_events c) -> In (r, lab) (registered c).
+Proof. exact model_fed_registered. Qed.
+
+(* without that hypothesis the statement is false (finding F8): a binding whose format is not in the order
+   of the loop nest is consumed by the dump although nothing registers its traces *)
+Theorem C12_names_unselected_format_refuted :
+  hypb f8_cfg = false /\
+  exists a e b f, dump_events f8_cfg = a ++ e :: b /\ In (NFile f) (needs e) /\ ~ name_produced f8_cfg a f.
+Proof. exact f8_refuted. Qed.
